@@ -287,7 +287,7 @@ func runC09(c c09Case) evid.Outcome {
 		}
 	}
 	// every block's goroutine ends, awaited or not
-	deadline := time.Now().Add(30 * time.Second)
+	deadline := time.Now().Add(evid.Stretch(30 * time.Second))
 	for runtime.NumGoroutine() > afterStart+1 && time.Now().Before(deadline) {
 		time.Sleep(2 * time.Millisecond)
 	}
